@@ -2,6 +2,8 @@
 # tools/runall.sh <tier> <seed...> : run every registered check, print one line per (check, seed)
 cd "$(dirname "$0")/.."
 TIER="$1"; shift
+# under `vp run --with-repo` use the /repo snapshot taken for the run, so later fix commits do not mix in
+if [ -n "${VP_RUN_REPO:-}" ] && [ -z "${VERIF_REPO:-}" ]; then export VERIF_REPO="$VP_RUN_REPO"; fi
 for SEED in "$@"; do
   for ID in C01 C02 C03 C04 C05 C06 C07 C08 C09 C10 C11 C12 C13 C14 C15 C16 C17 C18 C19 C20; do
     OUT=$(VERIF_SEED=$SEED ./check $ID --tier $TIER --no-evidence 2>&1)
